@@ -360,6 +360,9 @@ class Config:
                 self.ph.register_method(m, h)
         # one live session to pass as session_id
         self.session = self.ph.session_manager.create_session({"name": "harness"}, "2025-06-18")
+        # ... and sessions whose client sent a clientInfo that is not an object (initialize stores whatever JSON value
+        # params.clientInfo held): what an EARLIER request left in the store is no reason for a later one to go unanswered
+        self.odd_sessions = [self.ph.session_manager.create_session(ci, "2025-06-18") for ci in (None, "a-string", [1, 2], 5, {"name": None})]
 
     def registered(self, method):
         return method in self.custom or method in dict(self.lib_handlers)
@@ -593,7 +596,8 @@ def gen_cases(ctx):
                     if how == "parse" and (mid is None or rng.random() < 0.35):
                         vias.append("specific")
                     for via in vias:
-                        sid = rng.choice((None, None, "", "unknown-session", "<live>"))
+                        sid = rng.choice((None, None, "", "unknown-session", "<live>", "<live>", "<odd:0>", "<odd:1>", "<odd:2>", "<odd:3>",
+                                          "<odd:4>"))
                         yield cfgname, {"cfg": cfgname, "method": method, "id": mid, "has_params": has_p, "params": p,
                                         "how": how if via == "unified" else "specific", "session": sid}
     # method-less and batch messages
@@ -679,6 +683,8 @@ async def run_real(cases):
         cfg = CONFIGS[cfgname]
         msg = build_message(case)
         sid = cfg.session if case["session"] == "<live>" else case["session"]
+        if isinstance(sid, str) and sid.startswith("<odd:"):
+            sid = cfg.odd_sessions[int(sid[5:-1])]
         try:
             r = await cfg.ph.handle_message(msg, sid)
             o, wire = canon_outcome(r)
